@@ -17,10 +17,27 @@ def read(rel):
     return open(os.path.join(REPO, rel), encoding="utf-8").read()
 
 
+class SectionFail(Exception):
+    pass
+
+
 def fail(msg):
-    print("translate.py: cannot translate: " + msg, file=sys.stderr)
-    print("translate.py: cannot translate: " + msg)
-    sys.exit(2)
+    raise SectionFail(msg)
+
+
+FAILED = []          # (section, message): what could not be read from the sources
+
+
+def section(T, name, fn, poison):
+    """Run one extraction. When the source no longer has the shape the extraction understands, the table gets a POISON value (a row
+    no real table has), so that every theorem and every tie that depends on the table stops checking, while properties that do not
+    use it are not disturbed; the failure is reported on stdout and in the status file."""
+    try:
+        fn()
+    except SectionFail as e:
+        FAILED.append((name, str(e)))
+        poison()
+        print(f"translate.py: cannot translate: {name}: {e}")
 
 
 def lean_str(s):
@@ -52,113 +69,152 @@ def main():
     export = read("ts-rs/src/export.rs")
     lib = read("ts-rs/src/lib.rs")
     attr_mod = read("macros/src/attr/mod.rs")
+    U = "<untranslated>"
 
     # ---- constants -----------------------------------------------------------------------------
-    T["NOTE"] = const_str(export, "NOTE", "export.rs")
-    T["DECLARATION_START"] = const_str(export, "DECLARATION_START", "export.rs")
-    m = re.search(r'const\s+ARRAY_TUPLE_LIMIT\s*:\s*usize\s*=\s*(\d+)\s*;', lib)
-    if not m: fail("ARRAY_TUPLE_LIMIT in lib.rs")
-    T["ARRAY_TUPLE_LIMIT"] = int(m.group(1))
-    m = re.search(r'std::env::var\("([A-Z_]+)"\)\s*\{\s*Err\(\.\.\)\s*=>\s*Cow::Borrowed\(Path::new\("([^"]*)"\)\)', export)
-    if not m: fail("default_out_dir in export.rs")
-    T["EXPORT_DIR_ENV"], T["DEFAULT_OUT_DIR"] = m.group(1), m.group(2)
-    m = re.search(r'impl_tuples!\(([^)]*)\);', lib)
-    if not m: fail("impl_tuples! invocation in lib.rs")
-    T["TUPLE_MAX_ARITY"] = len([x for x in m.group(1).split(",") if x.strip()])
+    def c_note(): T["NOTE"] = const_str(export, "NOTE", "export.rs")
+    section(T, "NOTE", c_note, lambda: T.__setitem__("NOTE", U))
+    def c_decl(): T["DECLARATION_START"] = const_str(export, "DECLARATION_START", "export.rs")
+    section(T, "DECLARATION_START", c_decl, lambda: T.__setitem__("DECLARATION_START", U))
+    def c_limit():
+        m = re.search(r'const\s+ARRAY_TUPLE_LIMIT\s*:\s*usize\s*=\s*(\d+)\s*;', lib)
+        if not m: fail("ARRAY_TUPLE_LIMIT in lib.rs")
+        T["ARRAY_TUPLE_LIMIT"] = int(m.group(1))
+    section(T, "ARRAY_TUPLE_LIMIT", c_limit, lambda: T.__setitem__("ARRAY_TUPLE_LIMIT", 0))
+    def c_dir():
+        m = re.search(r'std::env::var\("([A-Z_]+)"\)\s*\{\s*Err\(\.\.\)\s*=>\s*Cow::Borrowed\(Path::new\("([^"]*)"\)\)', export)
+        if not m:
+            # tolerant second reading: the variable and the default directory anywhere inside `default_out_dir`
+            f = re.search(r'fn default_out_dir\b.*?\n\}', export, flags=re.S)
+            v = re.search(r'env::var(?:_os)?\(\s*"([A-Z_]+)"', f.group(0)) if f else None
+            d = re.search(r'Path(?:Buf)?::(?:new|from)\(\s*"([^"]*)"', f.group(0)) if f else None
+            if not (v and d): fail("default_out_dir in export.rs")
+            T["EXPORT_DIR_ENV"], T["DEFAULT_OUT_DIR"] = v.group(1), d.group(1)
+            return
+        T["EXPORT_DIR_ENV"], T["DEFAULT_OUT_DIR"] = m.group(1), m.group(2)
+    def p_dir(): T["EXPORT_DIR_ENV"] = U; T["DEFAULT_OUT_DIR"] = U
+    section(T, "default_out_dir", c_dir, p_dir)
+    def c_tuples():
+        m = re.search(r'impl_tuples!\(([^)]*)\);', lib)
+        if not m: fail("impl_tuples! invocation in lib.rs")
+        T["TUPLE_MAX_ARITY"] = len([x for x in m.group(1).split(",") if x.strip()])
+    section(T, "TUPLE_MAX_ARITY", c_tuples, lambda: T.__setitem__("TUPLE_MAX_ARITY", 0))
 
-    # ---- inflection names (parse_assign_inflection) -------------------------------------------
-    m = re.search(r'fn parse_assign_inflection.*?Lit::Str\(string\)\s*=>\s*Ok\(match[^{]*\{(.*?)other\s*=>', attr_mod, flags=re.S)
-    if not m: fail("parse_assign_inflection in attr/mod.rs")
-    infl = re.findall(r'"([^"]+)"\s*=>\s*Inflection::(\w+)', m.group(1))
-    if len(infl) < 1: fail("no inflection arms")
-    T["inflections"] = infl
+    # ---- inflection names (the `"name" => Inflection::Variant` arms of the parser in attr/mod.rs) ----------------
+    def c_infl():
+        m = re.search(r'fn parse_assign_inflection.*?Lit::Str\(string\)\s*=>\s*Ok\(match[^{]*\{(.*?)other\s*=>', attr_mod, flags=re.S)
+        scope = m.group(1) if m else None
+        if scope is None:
+            # tolerant second reading: the arms wherever they are inside that function (up to the next top-level item)
+            f = re.search(r'fn parse_assign_inflection\b.*?(?=\n(?:pub(?:\([^)]*\))?\s+)?fn\s|\nimpl\s|\Z)', attr_mod, flags=re.S)
+            scope = f.group(0) if f else None
+        if scope is None: fail("parse_assign_inflection in attr/mod.rs")
+        infl = re.findall(r'"([^"]+)"\s*=>\s*(?:Inflection|Self)::(\w+)', scope)
+        if len(infl) < 1:
+            infl = re.findall(r'"([^"]+)"\s*=>\s*(?:Inflection|Self)::(\w+)', attr_mod)
+        if len(infl) < 1: fail("no inflection arms")
+        T["inflections"] = infl
+    section(T, "inflections", c_infl, lambda: T.__setitem__("inflections", [(U, "Lower")]))
 
     # ---- primitives / wrappers / shadows -------------------------------------------------------
-    prims = []   # (rust type, ts name, feature or "")
-    def prim_block(body, feature):
-        # `A, B, C => "x", D => "y"`
-        for tys, lit in re.findall(r'((?:[^=>"]|=(?!>))+?)=>\s*"([^"]*)"', body):
-            for ty in tys.split(","):
-                ty = ty.strip()
-                if ty: prims.append((re.sub(r'\s+', '', ty), lit, feature))
-    for m in re.finditer(r'(#\[cfg\(feature\s*=\s*"([^"]+)"\)\]\s*)?impl_primitives!\s*[\{\(](.*?)[\}\)]\s*;?\s*\n', lib, flags=re.S):
-        if "($($ty:ty)" in m.group(0) or "$l:literal" in m.group(3): continue
-        prim_block(m.group(3), m.group(2) or "")
-    for rel, feat in (("ts-rs/src/chrono.rs", "chrono-impl"), ("ts-rs/src/serde_json.rs", "serde-json-impl")):
-        src = read(rel)
-        for m in re.finditer(r'impl_primitives!\s*[\{\(](.*?)[\}\)]\s*;', src, flags=re.S):
-            prim_block(m.group(1), feat)
-    if not any(p[0] == "u8" for p in prims) or not any(p[0] == "()" for p in prims):
-        fail("impl_primitives! main block in lib.rs")
-    T["primitives"] = prims
+    def c_prims():
+        prims = []   # (rust type, ts name, feature or "")
+        def prim_block(body, feature):
+            # `A, B, C => "x", D => "y"`
+            for tys, lit in re.findall(r'((?:[^=>"]|=(?!>))+?)=>\s*"([^"]*)"', body):
+                for ty in tys.split(","):
+                    ty = ty.strip()
+                    if ty: prims.append((re.sub(r'\s+', '', ty), lit, feature))
+        for m in re.finditer(r'(#\[cfg\(feature\s*=\s*"([^"]+)"\)\]\s*)?impl_primitives!\s*[\{\(](.*?)[\}\)]\s*;?\s*\n', lib, flags=re.S):
+            if "($($ty:ty)" in m.group(0) or "$l:literal" in m.group(3): continue
+            prim_block(m.group(3), m.group(2) or "")
+        for rel, feat in (("ts-rs/src/chrono.rs", "chrono-impl"), ("ts-rs/src/serde_json.rs", "serde-json-impl")):
+            src = read(rel)
+            for m in re.finditer(r'impl_primitives!\s*[\{\(](.*?)[\}\)]\s*;', src, flags=re.S):
+                prim_block(m.group(1), feat)
+        if not any(p[0] == "u8" for p in prims) or not any(p[0] == "()" for p in prims):
+            fail("impl_primitives! main block in lib.rs")
+        T["primitives"] = prims
+    section(T, "primitives", c_prims, lambda: T.__setitem__("primitives", [(U, U, "")]))
 
-    wrappers = []
-    for rel, feat0 in (("ts-rs/src/lib.rs", ""), ("ts-rs/src/tokio.rs", "tokio-impl")):
-        src = read(rel)
-        for m in re.finditer(r'(#\[cfg\(feature\s*=\s*"([^"]+)"\)\]\s*)?impl_wrapper!\(impl<[^>]*(?:>[^>]*)*?>\s*TS\s+for\s+(.+?)\);', src):
-            ty = re.sub(r'\s+', '', m.group(3))
-            wrappers.append((ty, m.group(2) or feat0))
-    if len(wrappers) < 5: fail("impl_wrapper! invocations")
-    T["wrappers"] = wrappers
+    def c_wrappers():
+        wrappers = []
+        for rel, feat0 in (("ts-rs/src/lib.rs", ""), ("ts-rs/src/tokio.rs", "tokio-impl")):
+            src = read(rel)
+            for m in re.finditer(r'(#\[cfg\(feature\s*=\s*"([^"]+)"\)\]\s*)?impl_wrapper!\(impl<[^>]*(?:>[^>]*)*?>\s*TS\s+for\s+(.+?)\);', src):
+                ty = re.sub(r'\s+', '', m.group(3))
+                wrappers.append((ty, m.group(2) or feat0))
+        if len(wrappers) < 5: fail("impl_wrapper! invocations")
+        T["wrappers"] = wrappers
+    section(T, "wrappers", c_wrappers, lambda: T.__setitem__("wrappers", [(U, "")]))
 
-    shadows = []
-    for rel, feat0 in (("ts-rs/src/lib.rs", ""), ("ts-rs/src/serde_json.rs", "serde-json-impl")):
-        src = read(rel)
-        for m in re.finditer(r'(#\[cfg\(feature\s*=\s*"([^"]+)"\)\]\s*)?impl_shadow!\(as\s+(.+?):\s*impl(?:<.*?>)?\s*TS\s+for\s+(.+?)\);', src):
-            if "$s" in m.group(3): continue
-            shadows.append((re.sub(r'\s+', '', m.group(4)), re.sub(r'\s+', '', m.group(3)), m.group(2) or feat0))
-    if len(shadows) < 5: fail("impl_shadow! invocations")
-    T["shadows"] = shadows
+    def c_shadows():
+        shadows = []
+        for rel, feat0 in (("ts-rs/src/lib.rs", ""), ("ts-rs/src/serde_json.rs", "serde-json-impl")):
+            src = read(rel)
+            for m in re.finditer(r'(#\[cfg\(feature\s*=\s*"([^"]+)"\)\]\s*)?impl_shadow!\(as\s+(.+?):\s*impl(?:<.*?>)?\s*TS\s+for\s+(.+?)\);', src):
+                if "$s" in m.group(3): continue
+                shadows.append((re.sub(r'\s+', '', m.group(4)), re.sub(r'\s+', '', m.group(3)), m.group(2) or feat0))
+        if len(shadows) < 5: fail("impl_shadow! invocations")
+        T["shadows"] = shadows
+    section(T, "shadows", c_shadows, lambda: T.__setitem__("shadows", [(U, U, "")]))
 
     # ---- attribute key tables (the eight impl_parse! blocks) ----------------------------------
     keys = {}
     for rel, pos in (("macros/src/attr/struct.rs", "struct"), ("macros/src/attr/enum.rs", "enum"),
                      ("macros/src/attr/variant.rs", "variant"), ("macros/src/attr/field.rs", "field")):
-        src = read(rel)
-        blocks = list(re.finditer(r'impl_parse!\s*\{\s*(Serde<)?(\w+)>?\(input,\s*out\)\s*\{(.*?)\n    \}\n\}', src, flags=re.S))
-        if len(blocks) != 2: fail(f"expected two impl_parse! blocks in {rel}, found {len(blocks)}")
-        for b in blocks:
-            kind = "serde" if b.group(1) else "ts"
-            body = b.group(3)
-            body = re.sub(r'//[^\n]*', '', body)
-            rows = []
-            # split top-level arms: `"k" | "k2" => expr,`
-            i = 0
-            arms = []
-            depth = 0; cur = ""
-            for ch in body:
-                if ch in "({[": depth += 1
-                if ch in ")}]": depth -= 1
-                if ch == "," and depth == 0:
-                    arms.append(cur); cur = ""
-                else:
-                    cur += ch
-            if cur.strip(): arms.append(cur)
-            for arm in arms:
-                if not arm.strip(): continue
-                m = re.match(r'\s*((?:"[^"]+"\s*\|?\s*)+)=>\s*(.*)$', arm, flags=re.S)
-                if not m: fail(f"arm shape in {rel} ({kind}): {arm.strip()[:80]}")
-                ks = re.findall(r'"([^"]+)"', m.group(1))
-                expr = re.sub(r'\s+', ' ', m.group(2).strip())
-                tm = re.match(r'out(?:\.0)?\.(\w+)\s*=\s*(.*)$', expr)
-                if tm:
-                    target, rhs = tm.group(1), tm.group(2)
-                    pm = re.search(r'(parse_\w+)\(input\)', rhs)
-                    parser = pm.group(1) if pm else ("flag_true" if rhs.strip() == "true" else "other:" + rhs)
-                    wrap = "Some" if rhs.startswith("Some(") else "plain"
-                else:
-                    target = "-"
-                    if "using_serde_with" in expr:
-                        target, parser, wrap = "using_serde_with", "with_str", "plain"
-                    elif "peek(Token![=])" in expr:
-                        # the two hand-written `default` arms: record exactly how often `=` is consumed
-                        n_eq = expr.count("input.parse::<Token![=]>()") + expr.count("parse_assign_str(input)")
-                        parser, wrap = f"opt_eq_str:{n_eq}", "none"
+        def c_keys(rel=rel, pos=pos):
+            src = read(rel)
+            blocks = list(re.finditer(r'impl_parse!\s*\{\s*(Serde<)?(\w+)>?\(input,\s*out\)\s*\{(.*?)\n    \}\n\}', src, flags=re.S))
+            if len(blocks) != 2: fail(f"expected two impl_parse! blocks in {rel}, found {len(blocks)}")
+            got = {}
+            for b in blocks:
+                kind = "serde" if b.group(1) else "ts"
+                body = b.group(3)
+                body = re.sub(r'//[^\n]*', '', body)
+                rows = []
+                # split top-level arms: `"k" | "k2" => expr,`
+                arms = []
+                depth = 0; cur = ""
+                for ch in body:
+                    if ch in "({[": depth += 1
+                    if ch in ")}]": depth -= 1
+                    if ch == "," and depth == 0:
+                        arms.append(cur); cur = ""
                     else:
-                        fail(f"unrecognised arm body in {rel} ({kind}): {expr[:100]}")
-                for k in ks:
-                    rows.append((k, target, parser, wrap))
-            keys[(kind, pos)] = rows
+                        cur += ch
+                if cur.strip(): arms.append(cur)
+                for arm in arms:
+                    if not arm.strip(): continue
+                    m = re.match(r'\s*((?:"[^"]+"\s*\|?\s*)+)=>\s*(.*)$', arm, flags=re.S)
+                    if not m: fail(f"arm shape in {rel} ({kind}): {arm.strip()[:80]}")
+                    ks = re.findall(r'"([^"]+)"', m.group(1))
+                    expr = re.sub(r'\s+', ' ', m.group(2).strip())
+                    tm = re.match(r'out(?:\.0)?\.(\w+)\s*=\s*(.*)$', expr)
+                    if tm:
+                        target, rhs = tm.group(1), tm.group(2)
+                        pm = re.search(r'(parse_\w+)\(input\)', rhs)
+                        parser = pm.group(1) if pm else ("flag_true" if rhs.strip() == "true" else "other:" + rhs)
+                        wrap = "Some" if rhs.startswith("Some(") else "plain"
+                    else:
+                        target = "-"
+                        if "using_serde_with" in expr:
+                            target, parser, wrap = "using_serde_with", "with_str", "plain"
+                        elif "peek(Token![=])" in expr:
+                            # the two hand-written `default` arms: record exactly how often `=` is consumed
+                            n_eq = expr.count("input.parse::<Token![=]>()") + expr.count("parse_assign_str(input)")
+                            parser, wrap = f"opt_eq_str:{n_eq}", "none"
+                        else:
+                            fail(f"unrecognised arm body in {rel} ({kind}): {expr[:100]}")
+                    for k in ks:
+                        rows.append((k, target, parser, wrap))
+                got[(kind, pos)] = rows
+            if set(got) != {("ts", pos), ("serde", pos)}: fail(f"the two impl_parse! blocks of {rel} are not one ts and one serde block")
+            keys.update(got)
+        def p_keys(pos=pos):
+            keys[("ts", pos)] = [(U, "-", "other:", "plain")]
+            keys[("serde", pos)] = [(U, "-", "other:", "plain")]
+        section(T, f"attribute keys ({pos})", c_keys, p_keys)
     T["keys"] = {f"{k[0]}:{k[1]}": v for k, v in keys.items()}
 
     # ---- inventory of order-/environment-sensitive constructs (C13) --------------------------------
@@ -186,6 +242,11 @@ def main():
         src = "".join(out)
         src = re.sub(r'#\[cfg\(ts_rs_verif\)\]\s*if let Some\(lines\) = verif_order\(self\) \{.*?return;\s*\}', '', src, flags=re.S)
         src = re.sub(r'//[^\n]*', '', src)
+        # what is counted are the places where such a value lives or is made (statics, fields, locals, constructor calls, type aliases,
+        # turbofish) — not `use` lines and not function SIGNATURES (a parameter or return type only passes an existing value on), so that
+        # extracting a helper that takes `&HashMap<..>` does not change the inventory
+        src = re.sub(r'^\s*(?:pub(?:\([^)]*\))?\s+)?use\s[^;]*;', '', src, flags=re.M)
+        src = re.sub(r'\bfn\s+\w+[^{;]*(?=[{;])', 'fn _', src)
         for pat in ("HashMap", "HashSet", "BTreeMap", "BTreeSet", "TypeId", "env::var", "std::thread", "Mutex", "OnceLock", "RandomState", "Instant", "SystemTime", "rand"):
             n = len(re.findall(r'\b' + re.escape(pat) + r'\b', src))
             if n:
@@ -225,7 +286,11 @@ def main():
     js = json.dumps(T, indent=1, sort_keys=True)
     if not os.path.exists(OUT_JSON) or open(OUT_JSON).read() != js:
         open(OUT_JSON, "w").write(js)
-    print("translate.py: ok")
+    status = os.path.join(os.path.dirname(OUT_JSON), "translate_status.json")
+    st = json.dumps({"failed": [{"section": a, "message": b} for a, b in FAILED]}, indent=1)
+    if not os.path.exists(status) or open(status).read() != st:
+        open(status, "w").write(st)
+    print("translate.py: ok" if not FAILED else f"translate.py: {len(FAILED)} section(s) could not be read from the sources: " + ", ".join(a for a, _ in FAILED))
 
 
 if __name__ == "__main__":
